@@ -881,10 +881,40 @@ func (env *Env) call(n *ast.CallExpr) (Val, error) {
 			return Val{T: a.T, L: []string{sIte(sLe(a.one(), b.one()), a.one(), b.one())}}, nil
 		}
 		return Val{T: a.T, L: []string{sIte(sLe(a.one(), b.one()), b.one(), a.one())}}, nil
+	case "cell":
+		// cell(x): the current content of the address-taken local variable x
+		id, ok := n.Args[0].(*ast.Ident)
+		if !ok {
+			return Val{}, fmt.Errorf("cell(name)")
+		}
+		for _, b := range fx.fn.Blocks {
+			for _, in := range b.Instrs {
+				if a, ok := in.(*ssa.Alloc); ok && a.Comment == id.Name {
+					pv, have := fx.vals[a]
+					if !have {
+						return Val{}, fmt.Errorf("unknown identifier %q (cell not allocated yet)", id.Name)
+					}
+					return fx.load(env.heap, pv), nil
+				}
+			}
+		}
+		return Val{}, fmt.Errorf("unknown identifier %q (no address-taken local of that name)", id.Name)
 	case "fv", "local":
 		id, ok := n.Args[0].(*ast.Ident)
 		if !ok {
 			return Val{}, fmt.Errorf("%s(name)", fname)
+		}
+		if fname == "local" && len(n.Args) == 2 {
+			// local(x, k): the k-th (source order, 1-based) variable named x of the function
+			lit, ok := n.Args[1].(*ast.BasicLit)
+			if !ok {
+				return Val{}, fmt.Errorf("local(name, k)")
+			}
+			k, _ := strconv.Atoi(lit.Value)
+			if v, ok := fx.localNth(id.Name, k); ok {
+				return v, nil
+			}
+			return Val{}, fmt.Errorf("unknown identifier %q (no %d-th local of that name on a path to this point)", id.Name, k)
 		}
 		if fname == "local" && env.local != nil {
 			// the current value of a local variable (a reassigned parameter's name alone denotes its entry value)
